@@ -15,6 +15,7 @@ import (
 	"go/token"
 	"go/types"
 	"math/big"
+	"sort"
 	"strings"
 
 	"golang.org/x/tools/go/ssa"
@@ -61,6 +62,16 @@ type pathEval struct {
 	// cells: the amount last stored in a local pointer cell (a named result spilled because of a
 	// defer, a variable captured by reference)
 	cells map[*ssa.Alloc]ssa.Value
+	// ctl is shared by an evaluation and the helper evaluations nested in it: which return path
+	// of a branching helper this run follows (choices), and how many each such call has (forks)
+	ctl *evalCtl
+	// extra: the decisions taken inside the helpers evaluated in place, in the caller's terms
+	extra []pathCond
+}
+
+type evalCtl struct {
+	choices map[*ssa.Call]int
+	forks   map[*ssa.Call]int
 }
 
 func isBigPtr(t types.Type) bool {
@@ -321,6 +332,19 @@ func (e *pathEval) call(in *ssa.Call) {
 			} else {
 				bin(rdiv)
 			}
+		case "QuoRem", "DivMod":
+			// z.QuoRem(x, y, r): z = ⌊x/y⌋, r = the remainder (an unknown amount); returns (z, r)
+			if len(rest) == 3 {
+				e.write(recv, intdivAtom(e.al, e.valOf(rest[0]), e.valOf(rest[1])), in.Pos())
+				rem := e.obj(rest[2])
+				if rem == nil {
+					rem = &bobj{param: -1}
+				}
+				e.write(rem, e.al.fresh("remainder"), in.Pos())
+				e.tuples[in] = []interface{}{recv, rem}
+			} else {
+				unknownResult()
+			}
 		case "Neg":
 			e.write(recv, rneg(e.valOf(rest[0])), in.Pos())
 			setResult(recv)
@@ -403,45 +427,77 @@ func (e *pathEval) call(in *ssa.Call) {
 		}
 		return
 	}
-	// a small straight-line helper (newFloat): evaluate it in place
+	// a small helper (newFloat, mulDiv, a price formula with its guards): evaluate it in place.
+	// A helper with several return paths is followed along the path the driver chose for this
+	// call (evalAll enumerates all of them); the decisions of that path join the caller's.
 	if e.depth < 2 && len(callee.Blocks) > 0 {
-		rets := core.Returns(callee)
-		if len(rets) == 1 {
-			if paths, ok := core.PathsTo(rets[0], 2); ok && len(paths) == 1 {
-				sub := newPathEval(e.c, e.al, callee, paths[0], e.depth+1)
-				sub.hook = e.hook
-				sub.tupleHook = e.tupleHook
-				for i, p := range callee.Params {
-					if i >= len(args) {
-						break
-					}
-					if isBigPtr(p.Type()) {
-						if o := e.obj(args[i]); o != nil {
-							sub.objs[p] = o
-						}
-					} else if isNumeric(p.Type()) {
-						sub.nums[p] = e.num(args[i])
-					}
+		type alt struct {
+			ret  *ssa.Return
+			path core.CFGPath
+		}
+		var alts []alt
+		fine := true
+		for _, r := range core.Returns(callee) {
+			if callee.Recover != nil && r.Block() == callee.Recover {
+				continue
+			}
+			ps, ok := core.PathsTo(r, 16)
+			if !ok {
+				fine = false
+				break
+			}
+			for _, p := range ps {
+				alts = append(alts, alt{r, p})
+			}
+		}
+		if fine && len(alts) > 1 && e.ctl == nil {
+			fine = false // no driver to enumerate the alternatives
+		}
+		if fine && len(alts) >= 1 && len(alts) <= 16 {
+			idx := 0
+			if len(alts) > 1 {
+				e.ctl.forks[in] = len(alts)
+				idx = e.ctl.choices[in]
+				if idx >= len(alts) {
+					idx = 0
 				}
-				res := sub.run(rets[0])
-				for k, pos := range sub.mutated {
-					if _, seen := e.mutated[k]; !seen {
-						e.mutated[k] = pos
-					}
+			}
+			a := alts[idx]
+			sub := newPathEval(e.c, e.al, callee, a.path, e.depth+1)
+			sub.hook, sub.tupleHook, sub.ctl = e.hook, e.tupleHook, e.ctl
+			for i, p := range callee.Params {
+				if i >= len(args) {
+					break
 				}
-				if len(res) == 1 {
-					switch r := res[0].(type) {
-					case *bobj:
-						setResult(r)
-						return
-					case ratf:
-						e.nums[in] = r
-						return
+				if isBigPtr(p.Type()) {
+					if o := e.obj(args[i]); o != nil {
+						sub.objs[p] = o
+					} else {
+						sub.objs[p] = nil
 					}
-				} else if len(res) > 1 {
-					e.tuples[in] = res
+				} else if isNumeric(p.Type()) {
+					sub.nums[p] = e.num(args[i])
+				}
+			}
+			res := sub.run(a.ret)
+			e.extra = append(e.extra, sub.conds()...)
+			for k, pos := range sub.mutated {
+				if _, seen := e.mutated[k]; !seen {
+					e.mutated[k] = pos
+				}
+			}
+			if len(res) == 1 {
+				switch r := res[0].(type) {
+				case *bobj:
+					setResult(r)
+					return
+				case ratf:
+					e.nums[in] = r
 					return
 				}
+			} else if len(res) > 1 {
+				e.tuples[in] = res
+				return
 			}
 		}
 	}
@@ -492,7 +548,7 @@ func (e *pathEval) conds() []pathCond {
 	for _, ed := range e.path.Edges {
 		out = append(out, e.classify(ed.If.Cond, ed.Taken))
 	}
-	return out
+	return append(out, e.extra...)
 }
 
 func (e *pathEval) classify(cond ssa.Value, truth bool) pathCond {
@@ -648,17 +704,65 @@ type retEval struct {
 }
 
 func evalReturns(c *core.Ctx, al *algebra, fn *ssa.Function, maxPaths int) ([]retEval, bool) {
+	return evalAll(c, al, fn, maxPaths, nil)
+}
+
+// evalAll evaluates every acyclic path to every return of fn, and for every call of a branching
+// helper met on the way every return path of that helper. setup may install hooks.
+func evalAll(c *core.Ctx, al *algebra, fn *ssa.Function, maxPaths int, setup func(*pathEval)) ([]retEval, bool) {
 	var out []retEval
+	runs := 0
 	for _, r := range core.Returns(fn) {
+		if fn.Recover != nil && r.Block() == fn.Recover {
+			continue
+		}
 		paths, ok := core.PathsTo(r, maxPaths)
 		if !ok {
 			return nil, false
 		}
 		for _, p := range paths {
-			ev := newPathEval(c, al, fn, p, 0)
-			ev.bindParams()
-			res := ev.run(r)
-			out = append(out, retEval{ret: r, ev: ev, res: res, conds: ev.conds()})
+			over := false
+			var rec func(ch map[*ssa.Call]int)
+			rec = func(ch map[*ssa.Call]int) {
+				if over {
+					return
+				}
+				runs++
+				if runs > 4*maxPaths+64 {
+					over = true
+					return
+				}
+				ev := newPathEval(c, al, fn, p, 0)
+				ev.ctl = &evalCtl{choices: ch, forks: map[*ssa.Call]int{}}
+				ev.bindParams()
+				if setup != nil {
+					setup(ev)
+				}
+				res := ev.run(r)
+				var fresh []*ssa.Call
+				for k := range ev.ctl.forks {
+					if _, chosen := ch[k]; !chosen {
+						fresh = append(fresh, k)
+					}
+				}
+				if len(fresh) == 0 {
+					out = append(out, retEval{ret: r, ev: ev, res: res, conds: ev.conds()})
+					return
+				}
+				sort.Slice(fresh, func(i, j int) bool { return fresh[i].Pos() < fresh[j].Pos() })
+				k := fresh[0]
+				for j := 0; j < ev.ctl.forks[k]; j++ {
+					ch2 := map[*ssa.Call]int{k: j}
+					for a, b := range ch {
+						ch2[a] = b
+					}
+					rec(ch2)
+				}
+			}
+			rec(map[*ssa.Call]int{})
+			if over {
+				return nil, false
+			}
 		}
 	}
 	return out, true
